@@ -436,7 +436,8 @@ REGENERATED from the current source: executing the regenerated statements of `st
 every sequence of answers; an instance's run result is what its `Run` returned; the pool launches the provider, the
 aggregator and the starter, each sending exactly one result on its own channel, the start context is a child of
 the run context; a factory built for a registered constructor decodes the config and calls the constructor at every call;
-the finish-callback wrapper around the shared profile passes `Left()` / `Next()` on unchanged -/
+the finish-callback wrapper around the shared profile passes `Left()` / `Next()` on unchanged; `Engine.Run` returns nil only
+after the loop that awaits one result per pool -/
 theorem C03_source_start (answers : List Bool) (firstOk : Bool) :
     execStart Pandora.Gen.InstLoop.startPre Pandora.Gen.InstLoop.startLoop Pandora.Gen.InstLoop.startPost answers firstOk =
       starter answers firstOk ∧
@@ -448,10 +449,13 @@ theorem C03_source_start (answers : List Bool) (firstOk : Bool) :
     Pandora.Gen.InstLoop.runAsyncContexts = ["instanceStart = WithCancel(ctx:run)", "run = WithCancel(ctx:pool)"] ∧
     Pandora.Gen.InstLoop.factoryPerCall = ["getMaybeConf", "newPlugin.Call"] ∧
     (∀ left : Int, 0 ≤ left → Pandora.Gen.InstLoop.callbackLeft left = (left, decide (left = 0))) ∧
-    (∀ ok : Bool, Pandora.Gen.InstLoop.callbackNext ok = (ok, !ok)) :=
+    (∀ ok : Bool, Pandora.Gen.InstLoop.callbackNext ok = (ok, !ok)) ∧
+    (Pandora.Gen.InstLoop.engineRunLoop = "for $i := 0; $i < len($.config.Pools); $i++" ∧
+     Pandora.Gen.InstLoop.engineRunReturnsInLoop.all (fun r => r != "return nil") = true ∧
+     Pandora.Gen.InstLoop.engineRunAfterLoop = "return nil") :=
   ⟨Pandora.Bridge.C03Start.start_exec_eq answers firstOk, Pandora.Bridge.C03Start.run_result_after_run,
    Pandora.Bridge.C03Start.runAsync_eq.1, Pandora.Bridge.C03Start.runAsync_eq.2, Pandora.Bridge.C03Start.factory_per_call,
-   Pandora.Bridge.C03Start.callback_left, Pandora.Bridge.C03Start.callback_next⟩
+   Pandora.Bridge.C03Start.callback_left, Pandora.Bridge.C03Start.callback_next, Pandora.Bridge.C03Start.engineRun_eq⟩
 
 end Start
 
